@@ -32,3 +32,5 @@ mod c13;
 mod c27;
 #[cfg(kani)]
 mod c36;
+#[cfg(kani)]
+mod c35;
